@@ -113,6 +113,7 @@ func runC17(c *core.Ctx, o Options) {
 	}
 	// accessors that hand out entry storage: Group.Entries / AddEntry / Component.Set* operate on the group's own slices
 	checkEntryStorage(c, "S")
+	c.RuleMin = map[string]int{"P1": 10, "S": 15, "V": 43}
 	c.MinObl = 60
 }
 
